@@ -11,8 +11,8 @@ tvars == <<l, nbad>>
 Near(a, b, s) == a - b <= s /\ b - a <= s
 Bad(e) ==
      { c \in {"Finite"} : ~e.finite }
-  \cup { c \in {"FlagIsLastBelowTol"} : e.converged # (e.hist_len > 0 /\ e.last_le_tol) }
-  \cup { c \in {"ItersIsHistLen"} : e.iters # e.hist_len }
+  \cup { c \in {"M:FlagIsLastBelowTol"} : e.converged # (e.hist_len > 0 /\ e.last_le_tol) }
+  \cup { c \in {"M:ItersIsHistLen"} : e.iters # e.hist_len }
   \cup { c \in {"HistoryOfReturnedIterate"} : e.finite /\ e.hist_len > 0 /\ e.proxy_known
                                               /\ (e.last_lg > FloorLg + e.cond_lg \/ e.proxy_true_lg > FloorLg + e.cond_lg)      \* above rounding noise (eps * cond)
                                               /\ ~Near(e.last_lg, e.proxy_true_lg, HistSlack) }
@@ -23,7 +23,7 @@ Bad(e) ==
   \cup { c \in {"ConfigurationUnchanged"} : ~e.config_unchanged }
        (* every successful micro-solve is followed by exactly one update and one history entry; a failed   *)
        (* (skipped) step leaves the history alone: |hist| = number of successful micro-solves               *)
-  \cup { c \in {"HistoryMatchesUpdates"} : e.updates >= 0 /\ e.hist_len # e.updates }
+  \cup { c \in {"M:HistoryMatchesUpdates"} : e.updates >= 0 /\ e.hist_len # e.updates }
   \cup { c \in {"M:FallbackOnlyAfterCgFailure"} : e.solver # "cgne" /\ e.micro.ns_fallback # e.micro.spd_fail }
   \cup { c \in {"M:InjectedFaultsTaken"} : (e.inject # <<>> /\ "spd_fail_every" \in DOMAIN e.inject /\ e.micro.spd_ok + e.micro.spd_fail >= 2 /\ e.micro.spd_fail = 0) }
 TInit == l = 1 /\ nbad = 0
